@@ -156,6 +156,10 @@ func buildPrestates(kinds []string) []*prestate {
 			sign(types.NewContractCreation(0, bigZero(), 500000, one, contractInit), keyA),
 			call(w, "A", 1, 1, one),
 		}
+		if strings.HasSuffix(kind, "+factory") {
+			// block 1: A creates the contract through the CREATE2 factory (slot3 = 0x100) and calls "set" (slot1 = 1)
+			txs[0] = sign(types.NewTransaction(0, factoryAddr, bigZero(), 700000, one, child2Init), keyA)
+		}
 		for _, tx := range txs {
 			if err := n.pool.AddLocal(tx); err != nil {
 				fatal("parent block transaction rejected by the pool:", err)
@@ -229,6 +233,9 @@ type variant struct {
 	Rep     int      `json:"repetition"`
 	Cold    bool     `json:"cold_restart"`
 	Scratch bool     `json:"own_genesis"`
+	// CapEvery: after every block the node applies (parent blocks included) its snapshot diff layers are merged into the
+	// disk layer (chains only)
+	CapEvery bool `json:"flatten_snapshot_every_block,omitempty"`
 }
 
 func (v variant) String() string {
@@ -335,6 +342,7 @@ func nodeFor(p *prestate, v variant) (*node, error) {
 	if err != nil {
 		return nil, err
 	}
+	n.capEvery = v.CapEvery
 	for _, b := range p.blocks {
 		if o := n.receive(b); o.Err != "" {
 			n.close()
@@ -820,11 +828,18 @@ func main() {
 	cpres := chainPrestates()
 	cjobs := enumerateChains(cpres, chainBlocks)
 	cresults := make([]*chainResult, len(cjobs))
-	cvariants := chainVariantsFor(chainBlocks)
+	cvariantsOf := map[*prestate][]chainVariant{}
+	nChainVariants := map[string]int{}
+	for _, p := range cpres {
+		cvariantsOf[p] = chainVariantsFor(p, chainBlocks)
+		nChainVariants[p.id()] = len(cvariantsOf[p])
+	}
+	var recreated int64
 	var cmu sync.Mutex
 	var clearThenRead, readOK int64
 	cdone := par.For(int64(len(cjobs)), 1, r.Expired, func(i int64) {
 		j := cjobs[i]
+		cvariants := cvariantsOf[j.p]
 		cr := runChainCase(j, int(i), cvariants)
 		cresults[i] = cr
 		r.Add("chains", 1)
@@ -863,6 +878,21 @@ func main() {
 			clearThenRead++
 			cmu.Unlock()
 		}
+		// measured: the contract self-destructed in one block and was re-created at the SAME address by a later one
+		killed := false
+		for k, b := range j.blocks {
+			o := cr.ref[k]
+			ok := len(o.Receipts) == 1 && o.Receipts[0].Status == 1
+			switch nm := seqName(b); {
+			case nm == "killA" && ok && strings.HasPrefix(o.ReadBack, "exists=false"):
+				killed = true
+			case nm == "mk2B" && ok && killed && strings.HasPrefix(o.ReadBack, "exists=true"):
+				cmu.Lock()
+				recreated++
+				cmu.Unlock()
+				killed = false
+			}
+		}
 		if nontrivial {
 			r.Distinct("distinct_nontrivial", "chain:"+j.describe(len(j.blocks)-1))
 		}
@@ -876,7 +906,9 @@ func main() {
 		}
 	})
 	r.Set("chain_blocks", chainBlocks)
-	r.Set("chain_variants", len(cvariants))
+	r.Set("snapshot_flattenings", flattenings.Load())
+	r.Set("chain_variants", nChainVariants)
+	r.Set("chains_recreating_the_contract_at_the_same_address_after_selfdestruct", recreated)
 	r.Set("chains_clearing_a_genesis_slot_then_reading_it", clearThenRead)
 
 	// 3. blocks
@@ -1134,7 +1166,9 @@ func main() {
 		"distinct_nontrivial = distinct (template sequence, parent state) whose reference execution executed >= 1 transaction successfully or skipped >= 1 transaction (measured from receipts); "+
 		"chains = every sequence of "+fmt.Sprint(chainBlocks)+" consecutive blocks, each holding <= 1 transaction of {(empty), "+strings.Join(chainLetterNames[1:], ", ")+"}, on the parent states "+strings.Join(cpn, ", ")+
 		" whose multi-purpose contract is part of the GENESIS allocation with non-zero values in slots 1..5 (resident in the snapshot disk layer), built block after block through the real proposer path, executed on fresh nodes under "+
-		fmt.Sprint(len(cvariants))+" variants {cache configuration} x {repetition} x {no restart, clean restart between blocks, restart that enables snapshots (snapshot regenerated from the head state)} and compared field by field after EVERY block, "+
+		fmt.Sprint(nChainVariants)+" variants {cache configuration} x {repetition} x {no restart, clean restart between blocks, restart that enables snapshots (snapshot regenerated from the head state)} x "+
+		"{snapshot layers as they come, all diff layers merged into the disk layer after every block (Tree.Cap(root,0)) on a long-running node} and compared field by field after EVERY block, "+
+		"on the +factory parent states (a CREATE2 factory in the genesis allocation; parent block 1 creates the contract through it) additionally the template mk2B that RE-CREATES the contract at the same address after a self-destruct (its constructor reads slot 1 before anything is written), "+
 		"including the contract's account and slots 1..5 read back through BlockChain.State() (field state-read-back); a chain is non-trivial if some block executed a transaction successfully; "+
 		"validator reports: every permutation of every report of <= 4 of 5 addresses x {absent, power 0, same power, other power} on 5 base sets")
 	r.Assume("Go's per-iteration map-order randomisation cannot be enumerated: it is exercised by the repetitions (>= 3 fresh executions per configuration, >= 12 per block) and by separate processes (thorough), not exhausted",
@@ -1148,6 +1182,8 @@ func main() {
 	if exhaustive {
 		r.Require(clearThenRead > 0, "no chain cleared a non-zero genesis slot in one block and read it in a later block")
 		r.Require(readOK > 0, "template readB never executed successfully in a chain")
+		r.Require(recreated > 0, "no chain re-created the contract at the same address after a self-destruct")
+		r.Require(flattenings.Load() > 0, "the snapshot was never flattened to disk (Tree.Cap(root, 0) never succeeded)")
 		for _, t := range alphabet {
 			if t.ChainOnly {
 				continue
